@@ -393,6 +393,30 @@ Proof.
   destruct e; try discriminate He. destruct clean; [discriminate He|]. exists c, f. exact Hin.
 Qed.
 
+(* non-vacuity of result_slot_outlives_execution: start, conversion, delete on the repaired code *)
+Fixpoint split_destroy (tr : list event) : option (list event * list event) :=
+  match tr with
+  | [] => None
+  | EvDestroy _ _ _ :: older => Some ([], older)
+  | e :: rest => match split_destroy rest with Some (n, o) => Some (e :: n, o) | None => None end
+  end.
+
+Lemma ex_result_slot_lemma :
+  exists newer c clean older,
+    snd (exec (ds_cfg true) ds_sched) = newer ++ EvDestroy c 0 clean :: older /\
+    latest_start older 0 1 5 /\ runs older 0 1 = 1%nat /\ In (EvStore 0 1 38) older.
+Proof.
+  remember (snd (exec (ds_cfg true) ds_sched)) as tr eqn:E. vm_compute in E.
+  match type of E with tr = ?l =>
+    let r := eval vm_compute in (split_destroy l) in
+    match r with Some (?n, ?o) => exists n, 0%nat, true, o end end.
+  subst tr. split; [reflexivity|]. split; [|split; [vm_compute; reflexivity|]].
+  - split.
+    + exists 0%nat, 0%nat. cbn. repeat (first [left; reflexivity | right]).
+    + intros c m a' wk' H. cbn in H. repeat (destruct H as [H|H]; [try discriminate; inversion H; lia|]). contradiction.
+  - cbn. repeat (first [left; reflexivity | right]).
+Qed.
+
 (* non-vacuity of result_after_join: start, join, convert; start again, join, convert *)
 Definition rj_cfg : config :=
   mkConfig 2 0 3 false 1 [[(0, CStart 0 5 0); (1, CJoin 0); (2, CGet 0); (3, CStart 0 6 0); (4, CJoin 0); (5, CGet 0)]%nat]
